@@ -431,6 +431,26 @@ def grainlists(draw):
     return out
 
 
+@st.composite
+def grainlists_long(draw):
+    """Lists long enough for names/keys with two or three digits ('10' sorts before '2' as text)."""
+    n = draw(st.one_of(st.integers(9, 30), st.sampled_from([10, 11, 12, 99, 100, 101, 120])))
+    seed = draw(st.integers(0, 2 ** 31 - 1))
+    named = draw(st.booleans())
+    rng = np.random.RandomState(seed)
+    out = []
+    for i in range(n):
+        a = float(rng.uniform(3, 12))
+        cell = [a, a * float(rng.uniform(0.8, 1.3)), a * float(rng.uniform(0.8, 1.5)), 90.0, float(rng.uniform(90, 115)), 90.0]
+        U = gens.rotation_from_seed(int(rng.randint(0, 2 ** 31 - 1)))
+        t = [float(x) for x in rng.uniform(-500, 500, 3)] if rng.rand() < 0.8 else None
+        out.append(dict(cell=cell, U=[[float(x) for x in r] for r in np.asarray(U)], t=t,
+                        name=("g%d:%d" % (n, i)) if named else None,
+                        npks=int(rng.randint(0, 10 ** 5)) if rng.rand() < 0.7 else None,
+                        nuniq=int(rng.randint(0, 10 ** 5)) if rng.rand() < 0.5 else None))
+    return out
+
+
 def build_grains(case):
     from ImageD11 import grain
     gl = []
@@ -536,7 +556,7 @@ def check_grains(case, rec=None):
     rm(fn, fh, fu)
     if rec is not None:
         c = [dict(g, U=np.asarray(g["U"])) for g in case]
-        rec.case(c, len(case) >= 2, ["grains"])
+        rec.case(c, len(case) >= 2, ["grains"] + (["grains:>10"] if len(case) > 10 else []) + (["grains:>100"] if len(case) > 100 else []))
     return fails
 
 
@@ -630,6 +650,7 @@ def run_shard(rec):
     hyp_run(rec, "parameters", st.dictionaries(parnames(), parvalues(), min_size=0, max_size=8),
             lambda c: check_pars(c, rec), max_examples=150 * k)
     hyp_run(rec, "grains", grainlists(), lambda c: check_grains(c, rec), max_examples=50 * k)
+    hyp_run(rec, "grains", grainlists_long(), lambda c: check_grains(c, rec), max_examples=8 * k, shrink=False)
     hyp_run(rec, "frame", framecases(), lambda c: check_frame(c, rec), max_examples=60 * k)
 
 
